@@ -174,7 +174,8 @@ def main_for(chk: Check, pid: str, models: bool = True):
             ext[clause][byid[rid]["opt"]] += 1
     chk.extra["extensions"] = {
         "module": "AlgoRel.tla",
-        "clauses": {"X.cycle": "cycle counter seen by step k is k", "X.leader": "best agent seen by a step is a best member of its starting population",
+        "clauses": {"X.cycle": "cycle counter seen by step k is k", "X.rates": "k-1 rates / differences recorded when step k starts",
+                    "X.leader": "best agent seen by a step is a best member of its starting population",
                     "X.slotwise": f"greedy-per-agent optimizers ({len(gen.GREEDY_EACH)}): no slot gets worse", "X.greywolf": "alpha/beta/gamma = three best",
                     "X.pso": "pbest[i] = best visited by particle i", "X.bee": "trial counters below the scouting limit"},
         "steps_judged": sum(max(0, len(r["snaps"]) - 1) for r in records),
